@@ -56,12 +56,18 @@ class StoreModel:
                     for fn in k.methods.values():
                         for x in ast.walk(fn):
                             if isinstance(x, ast.Attribute) and x.attr.startswith("_") and not x.attr.startswith("__") and x.attr in c.methods:
+                                if is_self_attr(x) and self.repo.find_method(k, x.attr)[1] is not None:
+                                    continue        # that class's own helper of the same name
                                 referenced_elsewhere.add(x.attr)
             from ..repo import inline_attr_chain_aliases
             for name, fn in c.methods.items():
                 new = inline_private_calls(self.repo, c, fn)
                 # `execute = self.dbConn.execute; execute(sql, params)` is `self.dbConn.execute(sql, params)`
                 new = inline_attr_chain_aliases(new)
+                # statements handed to a helper as data (`self._write([(sql, params), ...])`, a local generator of
+                # (sql, params) pairs): once the helper is inlined the loop over them is known iteration by iteration
+                from ..repo import unroll_static_loops
+                new = unroll_static_loops(new)
                 self.fns[(c.qname, name)] = new
             for name in c.methods:
                 if name.startswith("_") and not name.startswith("__") and name in called_inside and name not in referenced_elsewhere:
